@@ -39,11 +39,10 @@ class C16(E2ECheck):
 
     def strategy(self, tier):
         from ..units import deferq
-        return st.one_of(
-            deferq.histories().map(lambda h: {'kind': 'hist', 'h': h}),
-            deferq.histories().map(lambda h: {'kind': 'hist', 'h': h}),
-            gen.e2e_cases(self.profile).map(
-                lambda c: dict(c, kind='e2e')))
+        return gen.weighted(
+            (2, deferq.histories().map(lambda h: {'kind': 'hist', 'h': h})),
+            (1, gen.e2e_cases(self.profile).map(
+                lambda c: dict(c, kind='e2e'))))
 
     def execute(self, case):
         from ..units import deferq
@@ -197,10 +196,10 @@ class C12(E2ECheck):
             lambda c, o: {'kind': 'task', 'cap': c, 'ops': o},
             st.integers(1, 4),
             st.lists(st.sampled_from(['a', 'a', 'r']), max_size=20))
-        return st.one_of(
-            sema.sequences(), sema.sequences(), sema.blocking_cases(),
-            sema.blocking_cases(), task,
-            gen.e2e_cases(self.profile).map(lambda c: dict(c, kind='e2e')))
+        return gen.weighted(
+            (2, sema.sequences()), (2, sema.blocking_cases()), (1, task),
+            (1, gen.e2e_cases(self.profile).map(
+                lambda c: dict(c, kind='e2e'))))
 
     @staticmethod
     def oracle(R):
@@ -336,8 +335,8 @@ class C17(Check):
 
     def strategy(self, tier):
         from ..units import coord
-        return st.one_of(coord.sequences(), coord.concurrent_cases(),
-                         coord.concurrent_cases())
+        return gen.weighted((1, coord.sequences()),
+                            (2, coord.concurrent_cases()))
 
     def execute(self, case):
         from ..units import coord
@@ -477,11 +476,11 @@ class C14(E2ECheck):
 
     def strategy(self, tier):
         from ..units import planning
-        return st.one_of(
-            planning.real_scale_points(), planning.real_scale_points(),
-            gen.e2e_cases(self.profile).map(lambda c: dict(c, kind='e2e')),
-            gen.e2e_cases(self.profile).map(lambda c: dict(c, kind='e2e')),
-            gen.legacy_cases(), pp_planning_cases())
+        return gen.weighted(
+            (2, planning.real_scale_points()),
+            (2, gen.e2e_cases(self.profile).map(
+                lambda c: dict(c, kind='e2e'))),
+            (1, gen.legacy_cases()), (1, pp_planning_cases()))
 
     def classify(self, R):
         cfg = R.case['cfg']
@@ -739,8 +738,7 @@ class C13(E2ECheck):
         e2e = st.builds(with_bw, gen.e2e_cases(self.profile),
                         st.sampled_from([5, 20, 100, 1000]),
                         st.sampled_from([1, 4, 16]))
-        return st.one_of(bandwidth.histories(), bandwidth.histories(),
-                         bandwidth.histories(), e2e)
+        return gen.weighted((3, bandwidth.histories()), (1, e2e))
 
     @staticmethod
     def oracle(R):
